@@ -91,6 +91,12 @@ inductive InitErr
   | deepSpace     -- NotImplementedError at construction
 deriving Repr, DecidableEq
 
+/-- `OrbitElements.__init__` (orbital.py:574-600) with its refusal of a non-positive mean motion
+    (raised before any division by it), then the conversions of `elements` -/
+def elementsChecked (t : TleNum α) : Except InitErr (Elements α) :=
+  let mm := t.mean_motion * (Num.pi * (2 : α) / XMNPDA)
+  if Num.gt mm (0 : α) then .ok (elements t) else .error .mmRange
+
 inductive Mode | nearSimp | nearNorm
 deriving Repr, DecidableEq
 
@@ -293,6 +299,12 @@ def init (e : Elements α) : Except InitErr (Params α) :=
     let b := basic e
     if Num.ge b.period PERIOD_DEEP then .error .deepSpace
     else .ok (coeffs e b (modeOf b.perigee))
+
+/-- `Orbital.__init__` numeric part: OrbitElements then _SGDP4 -/
+def construct (t : TleNum α) : Except InitErr (Params α) :=
+  match elementsChecked t with
+  | .error err => .error err
+  | .ok e => init e
 
 inductive PropErr
   | notImplemented   -- `propagate`: mode ≠ NEAR_NORM
